@@ -64,7 +64,8 @@ MC_PLAN = {
                 ("MCLayoutsC", "MethodSum", "XffOne", 6, "Ticks12J", 2, "Vals1", 3),
                 ("MCLayoutsQuick", "MethodSum", "XffOne", 3, "Ticks12", 2, "Vals1", 2)],
         "C02": [("MCLayoutsD", "MethodsAll", "XffSet", 2, "Ticks12", 2, "Vals1"),
-                ("MCLayoutsQuick", "MethodsAll", "XffSet", 2, "Ticks12", 2, "Vals12"),
+                ("MCLayoutsQuick", "MethodsAll", "XffSet", 2, "Ticks12", 2, "Vals1"),
+                ("MCLayoutsQuick", "MethodsQuick", "XffOne", 2, "Ticks12", 2, "Vals12"),
                 ("MCLayoutsQuick", "MethodsQuick", "XffSet", 3, "Ticks12", 2, "Vals1"),
                 ("MCLayouts3", "MethodsAll", "XffSet", 1, "Ticks1", 2, "Vals1"),
                 ("MCLayoutsB", "MethodsAll", "XffSet", 2, "Ticks12", 2, "Vals1"),
@@ -113,7 +114,7 @@ EXPORT_PLAN = {
                 ("MCLayoutsQuick", "MethodsAll", "XffSet", 2, "Ticks12", 2, "Vals1", 16, "edges"),
                 ("MCLayouts3", "MethodsAll", "XffSet", 1, "Ticks1", 2, "Vals1", 16, "edges"),
                 ("MCLayoutsB", "MethodsAll", "XffSet", 1, "Ticks1", 2, "Vals1", 16, "edges"),
-                ("MCLayoutsF", "MethodsQuick", "XffFifths", 2, "Ticks12", 2, "Vals1", 8, "edges"),
+                ("MCLayoutsF", "MethodsQuick", "XffFifths", 1, "Ticks1", 2, "Vals1", 8, "edges"),
                 ("MCLayoutsH", "MethodsQuick", "XffSet", 3, "Ticks12", 1, "Vals1", 4, "edges")],
         "C03": [("MCLayoutsQuick", "MethodSum", "XffOne", 3, "Ticks12", 3, "Vals1", 64, "edges"),
                 ("MCLayoutsB", "MethodSum", "XffOne", 2, "Ticks12", 2, "Vals1", 8, "edges"),
